@@ -30,18 +30,18 @@ type govcEmb struct {
 	Y string
 }
 type govcMixed struct {
-	A  int8
-	B  [3]uint16
-	C  string
-	D  []int32
-	E  *int64
-	F  map[string]int8
-	G  interface{}
-	H  bool
-	I  [2]govcElem3
-	J  float32
-	K  []byte
-	L  *govcEmb
+	A int8
+	B [3]uint16
+	C string
+	D []int32
+	E *int64
+	F map[string]int8
+	G interface{}
+	H bool
+	I [2]govcElem3
+	J float32
+	K []byte
+	L *govcEmb
 	govcEmb
 }
 
@@ -51,7 +51,7 @@ type govcStringTagged struct {
 	B byte
 	U uint16 `json:"u,string"`
 	C byte
-	S string `json:"s,string"`
+	S string  `json:"s,string"`
 	F float32 `json:"f,string"`
 	D byte
 	P *int `json:"p,string"`
@@ -170,6 +170,33 @@ func TestGovcBounded(t *testing.T) {
 			}
 		}
 		runtime.GC()
+	}
+	// a pointer that was set before a failing decode stays set, with the fields the document never mentioned
+	{
+		type inner struct {
+			X int
+			Y string
+		}
+		type outer struct {
+			A *int
+			B *inner
+		}
+		for _, doc := range []string{`{"A":"x"}`, `{"B":{"X":2,"Y":3}}`, `{"B":{"X":"s"}}`, `{"B":[1]}`, `{"B":{"X":9`, `{"A":[}`} {
+			for mode := 0; mode < 2; mode++ {
+				n++
+				seven := 7
+				v := outer{A: &seven, B: &inner{X: 1, Y: "y"}}
+				var err error
+				if mode == 0 {
+					err = Unmarshal([]byte(doc), &v)
+				} else {
+					err = NewDecoder(bytes.NewReader([]byte(doc))).Decode(&v)
+				}
+				if err != nil && (v.A == nil || v.B == nil || v.B.Y != "y") {
+					record("pointer-dropped-after-failed-decode", fmt.Sprintf("%s mode=%d: A=%v B=%v", doc, mode, v.A, v.B))
+				}
+			}
+		}
 	}
 	var ks []string
 	for k := range classes {
